@@ -1621,6 +1621,14 @@ func (e *specEnv) call(n *ECall) sval {
 			return e.pureCall(fn, d, n.Args)
 		}
 	}
+	// an interface method declared pure + deterministic: Compound.Arity(c), Term.Compare(a, b, env)
+	for _, k := range []string{name, "engine." + name, "prolog." + name} {
+		if d, ok := vc.P.Funcs[k]; ok && d.Has("pure") && d.Has("deterministic") && vc.P.fnByKey[k] == nil {
+			if sig, recvT := vc.P.ifaceMethodSig(k); sig != nil {
+				return e.pureIfaceCall(d, sig, recvT, n.Args)
+			}
+		}
+	}
 	if d, ok := vc.P.Externs[name]; ok && d.Has("pure") && d.Has("deterministic") {
 		if fn := vc.P.findExtern(name); fn != nil {
 			return e.pureCall(fn, d, n.Args)
@@ -1728,6 +1736,54 @@ func (e *specEnv) pureCall(fn *ssa.Function, d *Decl, args []Expr) sval {
 		terms = append(terms, e.coerceTo(e.tr(a), ptypes[i]))
 	}
 	rt := sig.Results().At(0).Type()
+	vc.declareFun(name, sorts, vc.sortOf(rt))
+	return sval{t: "(" + name + " " + strings.Join(terms, " ") + ")", typ: rt}
+}
+
+// ifaceMethodSig: signature and interface type for a key like "engine.Compound.Arity"
+func (P *Program) ifaceMethodSig(key string) (*types.Signature, types.Type) {
+	parts := strings.Split(key, ".")
+	if len(parts) != 3 {
+		return nil, nil
+	}
+	for _, path := range []string{enginePath, rootPath} {
+		pkg := P.Pkgs[path].Pkg
+		if pkg.Name() != parts[0] {
+			continue
+		}
+		o := pkg.Scope().Lookup(parts[1])
+		if o == nil {
+			continue
+		}
+		it, ok := o.Type().Underlying().(*types.Interface)
+		if !ok {
+			continue
+		}
+		for i := 0; i < it.NumMethods(); i++ {
+			if it.Method(i).Name() == parts[2] {
+				return it.Method(i).Type().(*types.Signature), o.Type()
+			}
+		}
+	}
+	return nil, nil
+}
+
+func (e *specEnv) pureIfaceCall(d *Decl, sig *types.Signature, recvT types.Type, args []Expr) sval {
+	vc := e.vc
+	ptypes := []types.Type{recvT}
+	for i := 0; i < sig.Params().Len(); i++ {
+		ptypes = append(ptypes, sig.Params().At(i).Type())
+	}
+	if len(args) != len(ptypes) {
+		e.fail("%s: expected %d arguments (receiver first)", d.Name, len(ptypes))
+	}
+	var sorts, terms []string
+	for i, a := range args {
+		sorts = append(sorts, vc.sortOf(ptypes[i]))
+		terms = append(terms, e.coerceTo(e.tr(a), ptypes[i]))
+	}
+	rt := sig.Results().At(0).Type()
+	name := pureFnName(d.Name, 0)
 	vc.declareFun(name, sorts, vc.sortOf(rt))
 	return sval{t: "(" + name + " " + strings.Join(terms, " ") + ")", typ: rt}
 }
